@@ -61,6 +61,13 @@ def cases(draw, tier):
     c["nul"] = draw(st.booleans())
     c["explicit"] = draw(st.sampled_from([True, True, False]))
     c["tol"] = draw(st.sampled_from([1e-10, 1e-12, 1e-8]))
+    if draw(st.integers(0, 2)) == 0:
+        # a potential with few non-zero spline coefficients (a vortex localised in theta and r): the drift vanishes
+        # identically on most of the grid, so the nodes do not all converge / leave the domain alike
+        c["phiblock"] = [draw(st.integers(0, c["ntheta"] - 1)), draw(st.integers(0, c["nr"] - 1)),
+                         draw(st.integers(1, 3)), draw(st.integers(1, 3))]
+        if draw(st.booleans()):
+            c["phimodes"] = []
     return c
 
 
@@ -77,7 +84,7 @@ def radial_shape(kind, s):
     return [np.ones_like(s), s, s * s, s * (1 - s)][kind]
 
 
-def fields(c, theta, rpts):
+def fields(c, theta, rpts, sref=None):
     s = (rpts - c["rmin"]) / (c["rmax"] - c["rmin"])
     f = np.full((len(theta), len(rpts)), c["fconst"])
     for k, g, amp, ph in c["fmodes"]:
@@ -87,6 +94,14 @@ def fields(c, theta, rpts):
     phi = np.zeros_like(f)
     for k, g, amp, ph in c.get("phimodes", []):
         phi = phi + amp * np.cos(k * theta[:, None] + ph) * radial_shape(g, s)[None, :]
+    if c.get("phiblock") and sref is not None:
+        i0, j0, wi, wj = c["phiblock"]
+        C0 = np.zeros((len(theta), len(rpts)))
+        vals = np.random.default_rng(c["seed"] + 1).uniform(-1, 1, (wi, wj))
+        for a in range(wi):
+            for b in range(wj):
+                C0[(i0 + a) % len(theta), min(j0 + b, len(rpts) - 1)] = vals[a, b]
+        phi = phi + sref.A1 @ C0 @ sref.A2.T         # nodal values of the spline with these coefficients
     return f, phi
 
 
@@ -151,7 +166,7 @@ def predicate(c):
         s1, s2, b1, b2, theta, rpts, consts, adv, phis, interp, sref = build(c, c["explicit"], c["nul"], c["tol"])
     if sref.cond > 1e8:
         raise Inconclusive("ill-conditioned collocation")
-    f0, phi = fields(c, theta, rpts)
+    f0, phi = fields(c, theta, rpts, sref)
     with crash_is_violation("C12:interp", "interpolating phi"):
         interp.compute_interpolant(phi.copy(), phis)
     Cphi = phis.coeffs.copy()
@@ -166,6 +181,8 @@ def predicate(c):
         dt = math.copysign(1.0, c["disp"])
     labels = ["cu" if b1.cubic_uniform else "nu", "explicit" if c["explicit"] else "implicit",
               "nulEdge" if c["nul"] else "fEqEdge"]
+    if c.get("phiblock"):
+        labels.append("localised-phi")
     sweeps_seen = None
     if not c["explicit"]:
         J = jac_norm(sref, Cphi, theta, rpts, c["B0"])
